@@ -443,6 +443,19 @@ impl CallStack {
         frame.current_line_offset += delta;
     }
 
+    /// Decrements the current line offset in the top stack frame by the given delta.
+    ///
+    /// # Arguments
+    ///
+    /// * `delta` - The number of lines to decrement the current line offset by.
+    pub(crate) fn decrement_current_line_offset(&mut self, delta: usize) {
+        let Some(frame) = self.frames.front_mut() else {
+            return;
+        };
+
+        frame.current_line_offset = frame.current_line_offset.saturating_sub(delta);
+    }
+
     /// Pushes a new script call frame onto the stack.
     ///
     /// # Arguments
